@@ -17,6 +17,7 @@ fn main() {
         let res = panic::catch_unwind(|| match toks.first() {
             Some(&"num") => numl::handle(&toks[1..]),
             Some(&"parse") => parsel::handle(&toks[1..]),
+            Some(&"reparse") => parsel::handle_reparse(&toks[1..]),
             _ => "bad:layer".to_string(),
         });
         match res {
